@@ -19,6 +19,15 @@ variable {F T : Type}
 
 /-! ### SymbolValidator -/
 
+/-- the sort fields of a (sub-)query: `SortFieldNode.Accept` visits the field's UntypedSymbolNode with
+    the flag the predicate left behind -/
+def validateSort (sg : Sigma T) (t : T) (inSet : Bool) : List (String × Bool) → Option Bool
+  | [] => some inSet
+  | (n, _) :: rest =>
+    match sg.sym t n with
+    | none => none                                           -- unknown symbol
+    | some (_, isSet) => if !inSet && isSet then none else validateSort sg t inSet rest
+
 /-- Visitor traversal with the `inSetFunction` flag threaded through; `none` = an error was set.
     Returns the flag after the subtree. -/
 def validate (sg : Sigma T) : T → Bool → U F → Option Bool
@@ -31,16 +40,20 @@ def validate (sg : Sigma T) : T → Bool → U F → Option Bool
     match sg.sym t n with
     | none => none
     | some (_, isSet) => if isSet then some false else none
-  | t, _, .setFnSub _ n q _ _ =>
+  | t, _, .setFnSub _ n q so _ _ =>
     match sg.setTypes t n with
     | none => none                                           -- sub-query on non-entity symbol
     | some t' =>
       match sg.sym t n with
       | none => none
       | some (_, isSet) =>
+        -- untypedQueryNode.Accept: predicate, then sortBy (skip / limit are constants)
         match validate sg t' true q with
         | none => none
-        | some _ => if isSet then some false else none
+        | some f =>
+          match validateSort sg t' f so with
+          | none => none
+          | some _ => if isSet then some false else none
   | _, inSet, .boolC _ => some inSet
   | t, inSet, .cmp _ l _ => validate sg t inSet l
   | t, inSet, .inArr l _ => validate sg t inSet l
@@ -65,6 +78,15 @@ def typedSym (sg : Sigma T) (t : T) (n : String) : Outcome (TNode F) :=
   | some (.time, _) => .ok (.timeSym n)
   | some (.any, _) => .ok (.anySym n)
   | some (.other, _) => .err
+
+/-- `SortByNode.TypeTransform`: every sort field's symbol gets its typed node (`typedSym` succeeds iff
+    the symbol is known and its type is not `other`); `none` = an error -/
+def sortTyped (sg : Sigma T) (t : T) : List (String × Bool) → Option (List (String × NodeType × Bool))
+  | [] => some []
+  | (n, asc) :: rest =>
+    match sg.sym t n with
+    | some (τ, _) => if τ = .other then none else (sortTyped sg t rest).map ((n, τ, asc) :: ·)
+    | none => none
 
 def litNode : Lit F → TNode F
   | .str s => .strC s
@@ -211,7 +233,11 @@ def betweenTypedExpr (fo : FloatOps F) (l lo hi : TNode F) : Outcome (TNode F) :
     | _, _, _ => .err
 
 /-- `BinaryStringExprNode.IsSeekable` -/
-def isSeekableOp (op : Op) (l r : TNode F) : Bool := op = .eq && (l.isConst || r.isConst)
+def isSeekableOp (op : Op) (l r : TNode F) : Bool := TNode.seekableStr op l r
+
+/-- `IsSeekable()` before df4edc3: any `=` with a constant side, whatever the type of the symbol (kept
+    to document the defect: an any-typed set holding the number 7 was never found equal to "7") -/
+def isSeekableOpPreDf4edc3 (op : Op) (l r : TNode F) : Bool := op = .eq && (l.isConst || r.isConst)
 
 /-- `SetFunctionNode.specializeSetAnyOf`: only BinaryStringExprNode implements
     SeekOptimizableBoolNode -/
@@ -288,19 +314,24 @@ def transform (sg : Sigma T) (fo : FloatOps F) : T → U F → Outcome (TNode F)
        | _ => .ok (.setFn fn s))
     | .err => .err
     | .panic => .panic
-  | t, .setFnSub fn n q skip limit =>
+  | t, .setFnSub fn n q so skip limit =>
     -- UntypedSubQueryNode.TypeTransform, then SetFunctionNode.TypeTransform
     match typedSym (F := F) sg t n with
     | .ok _ =>
       (match sg.setTypes t n with
        | none => .err
        | some t' =>
+         -- untypedQueryNode.TypeTransformBool: the predicate, then `sortBy.TypeTransform` (every sort
+         -- field's symbol gets its typed node; the scanner of a sub-query never looks at them)
          (match asBool (transform sg fo t' q) with
           | .ok q' =>
-            (match fn with
-             | .count => .ok (.countQ n q' skip limit)
-             | .isEmpty => .ok (.isEmptyQ n q' skip limit)
-             | _ => .err)            -- allOf/anyOf over a sub-query: not in the grammar; typing rejects it
+            (match sortTyped sg t' so with
+             | some so' =>
+               (match fn with
+                | .count => .ok (.countQ n q' so' skip limit)
+                | .isEmpty => .ok (.isEmptyQ n q' so' skip limit)
+                | _ => .err)            -- allOf/anyOf over a sub-query: not in the grammar; typing rejects it
+             | none => .err)
           | .err => .err
           | .panic => .panic))
     | .err => .err
